@@ -10,7 +10,7 @@ def decode(string):
   return unsafe_decode(string)
 
 def validate_encoded(string):
-  if not re.match(r"^[!-)+-<>-~][!-~]*[+-](,[!-)+-<>-~][!-~]*[+-])*$", string):
+  if not re.fullmatch(r"^[!-)+-<>-~][!-~]*[+-](,[!-)+-<>-~][!-~]*[+-])*$", string):
     raise gfapy.FormatError(
       "{} is not a valid list of GFA1 segment names ".format(repr(string))+
       "and orientations\n"+
@@ -23,7 +23,7 @@ def validate_decoded(iterable):
   for elem in iterable:
     elem = gfapy.OrientedLine(elem)
     elem.validate()
-    if not re.match(r"^[!-)+-<>-~][!-~]*$", elem.name):
+    if not re.fullmatch(r"^[!-)+-<>-~][!-~]*$", elem.name):
       raise gfapy.FormatError(
         "{} is not a valid GFA1 segment name\n".format(elem.name)+
         "(it does not match [!-)+-<>-~][!-~]*)")
